@@ -37,6 +37,7 @@ type Plan struct {
 	HugeComp      bool   `json:"hugeComp,omitempty"`    // one component type of 4 KiB - 70 KiB
 	ManySubs      bool   `json:"manySubs,omitempty"`    // Dispatch with more than 64 members
 	ListenerRes   bool   `json:"listenerRes,omitempty"` // the listener object is also stored as a resource
+	TargetsOnly   bool   `json:"targetsOnly,omitempty"` // no operation leaves an entity with a relation and the zero target (nodes without a zero-target table)
 	FreshTwin     bool   `json:"freshTwin,omitempty"`   // C15: lock-step fresh world after each Reset
 	LoadTwin      bool   `json:"loadTwin,omitempty"`    // C17: lock-step loaded world after dump/load
 	EventReplica  bool   `json:"eventReplica,omitempty"`
@@ -231,6 +232,10 @@ func GenPlan(profile string, seed uint64, thorough bool) *Plan {
 		p.DeadPermille = 0
 	}
 	tuneProfile(p, r, thorough)
+	if (p.Wide == "tables" && r.Intn(2) == 0) || r.Intn(12) == 0 {
+		p.TargetsOnly = true
+		p.DeadPermille = 0
+	}
 	if p.Wide != "" {
 		switch p.Wide {
 		case "entities":
@@ -256,6 +261,7 @@ func GenPlan(profile string, seed uint64, thorough bool) *Plan {
 				p.EntityCap = 320 + r.Intn(120)
 				p.Steps += 350
 				p.FullEvery = 8
+				p.Weights["reset"] = 0 // C15 steers its resets once a node is beyond four pages of tables
 			}
 		case "nodes":
 			p.Weights["xchg"] = 40
